@@ -50,14 +50,16 @@ class Meta(dict):
         return super().__getitem__(item)
 
     def update(self, *args, **kwargs):
-        if args:
-            if len(args) > 1:
-                raise ValueError('Only one argument can be input')
-            other = dict(args[0])
-            for key in other:
-                self[key] = other[key]
-        for key in kwargs:
-            self[key] = kwargs[key]
+        if len(args) > 1:
+            raise ValueError('Only one argument can be input')
+        other = dict(*args, **kwargs)
+        # check all keys first so that a rejected update changes nothing
+        for key in other:
+            key = self.key_mapping.get(key, key)
+            if key not in self.valid_keys:
+                raise KeyError(f'{key} is not a valid key for this class.')
+        for key, value in other.items():
+            self[key] = value
 
     def setdefault(self, key, value=None):
         if key not in self:
